@@ -47,13 +47,27 @@ class DDAdapter(Adapter):
             return names[0]
         return tuple(names) if self.rng.random() < 0.3 else names
 
+    def _value(self, x, arrays):
+        """the same number the way users hand it over: float, numpy scalar, int, (diameters) a length-1 array"""
+        import numpy as np
+        c = self.rng.random()
+        if c < 0.55:
+            return x
+        if c < 0.75:
+            return np.float64(x)
+        if c < 0.85 and float(x) == int(x):
+            return int(x)
+        if arrays and c >= 0.85:
+            return np.array([x])
+        return x
+
     def step(self, w, l):
         act = l['act']
         if act == 'SetDensity':
-            w['rho'][self._keys(l['k'])] = self.phi[l['v']]
+            w['rho'][self._keys(l['k'])] = self._value(self.phi[l['v']], arrays=False)
             return {}
         if act == 'SetDiameter':
-            w['d'][self._keys(l['k'])] = self.phi[l['v']]
+            w['d'][self._keys(l['k'])] = self._value(self.phi[l['v']], arrays=True)
             return {}
         if act in ('DensityCheck', 'DiameterCheck'):
             try:
